@@ -72,7 +72,10 @@ def _evict(keep):
     except OSError:
         return
     ents.sort(reverse=True)
-    for _, d in ents[2:]:
+    now = time.time()
+    for mt, d in ents[5:]:
+        if now - mt < 1800:
+            continue          # possibly in use by a concurrent run (another tree / configuration)
         shutil.rmtree(os.path.join(CACHE, d), ignore_errors=True)
 
 
